@@ -45,6 +45,9 @@ def worker(k, q, rows, extra_all, lock):
                 if rc == 1 and nv > 0:
                     hits += 1
                 tail = o.strip().splitlines()[-1] if o.strip() else ""
+                if "harness nondeterminism" in o:
+                    tail = "[FLAKY: a mismatch was seen but its single-case re-run did not reproduce it] " + tail
+                    print(os.path.basename(d), c, "FLAKY mismatch (re-run did not reproduce)", flush=True)
             res[c] = {"runs": RUNS, "detected": hits, "last": tail[-160:]}
         sh("git checkout -- . && git clean -fdq", wt)
         shutil.rmtree(out + "/replays", ignore_errors=True)
